@@ -136,7 +136,7 @@ class CommentCase(pfbase.CfgCase):
                 if self.native:
                     text = pfbase.native_pformat(self.value, w, rw, indent=self.indent)
                 else:
-                    text = pfbase.stream_text(pfbase.sdocs(self.value, w, rw, False, indent=self.indent))
+                    text = pfbase.ptext(self.value, w, rw, indent=self.indent)
             except Exception as e:
                 exc = type(e).__name__
                 return self.fail(self.exc_key('C09:pformat-raises-' + exc),
